@@ -48,8 +48,24 @@ ITER_TOOL_NAMES = ["zip", "zip_strict", "map", "filter", "filter_none", "enumera
                    "filterfalse", "filterfalse_none", "islice", "pairwise", "starmap", "zip_longest", "merge"]
 
 
+RAW_ANY_TOOLS = ("islice", "batched", "pairwise", "cycle", "enumerate", "chain_from_iterable", "filter_none",
+                 "filterfalse_none", "compress")
+
+
 def iter_spec(rng: random.Random, name: str, maxlen: int = 8) -> dict:
     """Random valid spec for iterator tool ``name`` (a name from ITER_TOOL_NAMES)."""
+    spec = _iter_spec(rng, name, maxlen)
+    if name in RAW_ANY_TOOLS and not spec.get("raw") and rng.random() < 0.12:
+        # plain values incl. None / falsy ones: nothing but identity may serve as a "no item" marker
+        spec["raw"] = True
+        pool = [None, None, 0, False, "", 1, ["T"]]
+        srcs = spec["srcs"]
+        keep = 1 if name == "compress" else len(srcs)  # the selectors of compress stay numbers
+        spec["srcs"] = [[rng.choice(pool) for _ in src] if i < keep else src for i, src in enumerate(srcs)]
+    return spec
+
+
+def _iter_spec(rng: random.Random, name: str, maxlen: int = 8) -> dict:
     if name in ("zip", "zip_strict", "zip_longest", "chain", "map"):
         n = rng.choice([1, 2, 2, 3, 4])
         if name == "chain" and rng.random() < 0.1:
